@@ -297,6 +297,23 @@ func ruleNoSwallowedErrors(r *Run, id string, floor int, dropped bool, pkgs ...s
 			}
 			// (2) empty failure branches
 			for _, ev := range errs {
+				// go/ssa folds `if err != nil {}` into a comparison nobody reads
+				for _, cand := range append([]ssa.Value{ev}, loadsOfStored(ev)...) {
+					if cand.Referrers() == nil {
+						continue
+					}
+					for _, ref := range *cand.Referrers() {
+						bo, isBo := ref.(*ssa.BinOp)
+						if !isBo || (bo.Op != token.EQL && bo.Op != token.NEQ) || !(isNilConst(bo.X) || isNilConst(bo.Y)) {
+							continue
+						}
+						if bo.Referrers() == nil || len(*bo.Referrers()) == 0 {
+							nTests++
+							j++
+							r.Check(fmt.Sprintf("%s errtest#%d of %s", name, j, calleeShort(c)), false, p.pos(bo.Pos()), name, "the error of "+calleeShort(c)+" is compared with nil and nothing depends on the outcome (an empty branch): execution continues as if the call had succeeded")
+						}
+					}
+				}
 				for _, ifs := range nilTestsOf(fn, ev) {
 					bo := ifs.Cond.(*ssa.BinOp)
 					ne := nilEdge(ifs, bo.X)
@@ -338,6 +355,15 @@ func ruleNoSwallowedErrors(r *Run, id string, floor int, dropped bool, pkgs ...s
 						}
 					}
 					r.Check(fmt.Sprintf("%s errtest#%d of %s", name, j, calleeShort(c)), !empty, posOf(p, ifs), name, "the branch taken when "+calleeShort(c)+" failed is empty: execution continues as if the call had succeeded")
+					// inverted test: the branch on which the error is nil hands that (nil) error back while the failure
+					// edge carries on with the call's other results
+					if ret := firstReturnFrom(ne); ret != nil && fe != nil {
+						rs := retResults(ret)
+						if len(rs) > 0 && (rs[len(rs)-1] == ev || sameValue(rs[len(rs)-1], ev)) && firstReturnFrom(fe) == nil {
+							j++
+							r.Check(fmt.Sprintf("%s errtest#%d of %s polarity", name, j, calleeShort(c)), false, posOf(p, ifs), name, "the error of "+calleeShort(c)+" is returned on the branch where it is nil, and the branch where it is non-nil continues: the test is inverted")
+						}
+					}
 				}
 			}
 		})
